@@ -85,22 +85,26 @@ def make_simyp(sim):
     class SimYP(YP):
         def query(self, name, args):
             if not sim.monitor:
-                yield from super().query(name, args)
-                return
+                # hand out exactly the object the engine returns: a wrapper generator would turn a consumer's
+                # *drop* into a close() of that object (`yield from` closes its sub-iterator)
+                return super().query(name, args)
+            return self._monitored_query(name, args)
+
+        def _monitored_query(self, name, args):
             try:
                 snap = sim.snapshot()
             except (RecursionError, TM.TooDeep):
                 # a cyclic term exists (built by `=` without occurs check: unspecified behaviour); observing it
                 # cannot terminate.  The monitor must never raise into the engine: stand aside and flag the run.
                 sim.cyclic = True
-                yield from super().query(name, args)
+                yield from YP.query(self, name, args)
                 return
             sim.live.append(name)
             if len(sim.live) > sim.max_live:
                 sim.max_live = len(sim.live)
             exhausted = False
             try:
-                yield from super().query(name, args)
+                yield from YP.query(self, name, args)
                 exhausted = True
             finally:
                 # remove the innermost entry with this name (teardown order on close is CPython's business)
